@@ -73,6 +73,8 @@ static string typeOf(char kind) {
     case 'N': return "UCH";
     case 'W': return "UIN";
     case 'S': return "STR:2";
+    case 'i': return "IGN:1";
+    case 'j': return "IGN:2";
     default: return "?";
   }
 }
@@ -80,8 +82,8 @@ static string csvOf(const Config& c) {
   string s = "#\n";
   for (const MsgDef& m : c.msgs) {
     if (m.scan()) continue;
-    s += "r,c," + m.name + ",,,08," + m.idHex.substr(0, 4) + "," + m.idHex.substr(4);
-    for (const FieldDef& f : m.fields) s += "," + f.name + ",," + typeOf(f.kind) + ",,,";
+    s += string(m.part == 'u' ? "uw" : "r") + ",c," + m.name + ",,,08," + m.idHex.substr(0, 4) + "," + m.idHex.substr(4);
+    for (const FieldDef& f : m.fields) s += "," + f.name + "," + (m.part == 's' ? "" : "m") + "," + typeOf(f.kind) + ",,,";
     s += "\n";
   }
   std::set<string> defined;
@@ -100,32 +102,43 @@ static string csvOf(const Config& c) {
   return s;
 }
 
-static string slaveHex(const MsgDef& m, const ValueVector& vv) {
+// the data bytes of all fields (without length byte)
+static string dataHex(const MsgDef& m, const ValueVector& vv) {
   string data;
   char b[16];
   for (size_t i = 0; i < m.fields.size(); i++) {
     switch (m.fields[i].kind) {
       case 'N': snprintf(b, sizeof(b), "%02x", vv[i].num & 0xff); data += b; break;
       case 'W': snprintf(b, sizeof(b), "%02x%02x", vv[i].num & 0xff, (vv[i].num >> 8) & 0xff); data += b; break;
+      case 'i': snprintf(b, sizeof(b), "%02x", vv[i].num & 0xff); data += b; break;        // filler byte differs from the
+      case 'j': snprintf(b, sizeof(b), "%02x00", vv[i].num & 0xff); data += b; break;      // neighbouring field values
       case 'P': snprintf(b, sizeof(b), "%02x%02x", ((vv[i].num / 1000 % 10) << 4) | (vv[i].num / 100 % 10), ((vv[i].num / 10 % 10) << 4) | (vv[i].num % 10)); data += b; break;
       default: for (char ch : vv[i].str) { snprintf(b, sizeof(b), "%02x", static_cast<unsigned char>(ch)); data += b; } break;
     }
   }
+  return data;
+}
+static string slaveHex(const MsgDef& m, const ValueVector& vv) {
+  if (m.part != 's') return "00";
+  string data = dataHex(m, vv);
+  char b[8];
   snprintf(b, sizeof(b), "%02x", static_cast<unsigned>(data.size() / 2));
   return b + data;
 }
-static string masterHex(const MsgDef& m) {
+static string masterHex(const MsgDef& m, const ValueVector& vv) {
   if (m.scan()) return "ff08070400";
+  string data = m.part == 's' ? string() : dataHex(m, vv);
   char b[8];
-  snprintf(b, sizeof(b), "%02x", static_cast<unsigned>(m.idHex.size() / 2 - 2));
-  return "ff08" + m.idHex.substr(0, 4) + b + m.idHex.substr(4);
+  snprintf(b, sizeof(b), "%02x", static_cast<unsigned>(m.idHex.size() / 2 - 2 + data.size() / 2));
+  return string(m.part == 'u' ? "1008" : "ff08") + m.idHex.substr(0, 4) + b + m.idHex.substr(4) + data;
 }
 static string vecStr(const MsgDef& m, const ValueVector& vv) {
   string s;
   char b[24];
   for (size_t i = 0; i < m.fields.size(); i++) {
     if (i) s += ";";
-    if (m.fields[i].numeric()) { snprintf(b, sizeof(b), "%u", vv[i].num); s += m.fields[i].name + "=" + b; }
+    if (m.fields[i].ignored()) { snprintf(b, sizeof(b), "filler(%02x%s)", vv[i].num, m.fields[i].kind == 'j' ? "00" : ""); s += b; }
+    else if (m.fields[i].numeric()) { snprintf(b, sizeof(b), "%u", vv[i].num); s += m.fields[i].name + "=" + b; }
     else s += m.fields[i].name + "=" + vv[i].str;
   }
   return s;
@@ -166,14 +179,14 @@ struct World {
     if (gs.size() > 1) gAlt = gs[1];
     for (const MsgDef& m : c.msgs) {
       if (m.scan()) ref.push_back(mm->getScanMessage(0x08));
-      else ref.push_back(mm->find("c", m.name, "", false));
+      else ref.push_back(m.part == 'u' ? mm->find("c", m.name, "", false, true) : mm->find("c", m.name, "", false));
     }
   }
   bool store(const Config& c, int msg, int vec) {
     const MsgDef& m = c.msgs[static_cast<size_t>(msg)];
     ebusd::MasterSymbolString master;
     ebusd::SlaveSymbolString slave;
-    if (master.parseHex(masterHex(m)) != RESULT_OK) return false;
+    if (master.parseHex(masterHex(m, c.values[static_cast<size_t>(msg)][static_cast<size_t>(vec)])) != RESULT_OK) return false;
     if (slave.parseHex(slaveHex(m, c.values[static_cast<size_t>(msg)][static_cast<size_t>(vec)])) != RESULT_OK) return false;
     Message* r = ref[static_cast<size_t>(msg)];
     if (!r) return false;
@@ -198,7 +211,7 @@ struct World {
     char b[64];
     for (Message* r : ref) {
       if (!r) { s += "?|"; continue; }
-      s += r->m_lastSlaveData.getStr(0, 0, false);
+      s += r->m_lastMasterData.getStr(2, 0, false) + "/" + r->m_lastSlaveData.getStr(0, 0, false);
       time_t lc = r->getLastChangeTime();
       s += lc == 0 ? "/never|" : (g_now - lc == 0 ? "/0|" : "/1+|");
     }
@@ -328,8 +341,9 @@ static bool runHistory(const Config& c, const Judged& j, World* w, const vector<
       if (!w->store(c, o.msg, o.vec)) return false;
       if (log) {
         const MsgDef& m = c.msgs[static_cast<size_t>(o.msg)];
-        snprintf(b, sizeof(b), "%-5s t=+%lds store %s: %s (slave %s)\n", o.str().c_str(), static_cast<long>(g_now - T0), m.scan() ? "scan.08" : m.name.c_str(),
+        snprintf(b, sizeof(b), "%-5s t=+%lds store %s: %s (master %s slave %s)\n", o.str().c_str(), static_cast<long>(g_now - T0), m.scan() ? "scan.08" : m.name.c_str(),
                  vecStr(m, c.values[static_cast<size_t>(o.msg)][static_cast<size_t>(o.vec)]).c_str(),
+                 masterHex(m, c.values[static_cast<size_t>(o.msg)][static_cast<size_t>(o.vec)]).c_str(),
                  slaveHex(m, c.values[static_cast<size_t>(o.msg)][static_cast<size_t>(o.vec)]).c_str());
         *log += b;
       }
@@ -572,6 +586,30 @@ static bool selfTest(string* why) {
     bool differs = false;
     for (const ValueVector& vv : c2.values[0]) if (c2.parts[0].numTrue.count(vv[0].num) != c2.parts[0].numTrue.count(vv[1].num)) differs = true;
     if (!differs) { *why = string("decoy does not distinguish for shape ") + s.name; return false; }
+  }
+  // filler bytes: reading the judged field from the offset of the filler in front of it (or skipping a filler of a
+  // different length) must change the verdict for at least one stored vector, for every numeric shape
+  for (const Shape& s : shapes()) {
+    if (s.kind != CK_NUM) continue;
+    for (const char* d : {"lay=iN;ref=n1", "lay=jN;ref=n1", "lay=NiN;ref=n2", "lay=jW;ref=n1", "lay=NjW;ref=n2"}) {
+      Config c2 = makeConfig(string("fam=simple;shape=") + s.name + ";" + d);
+      int t2 = -1;
+      if (!c2.valid || refResolvable(c2, c2.parts[0], &t2) != 1) { *why = string("filler layout not resolvable: ") + d; return false; }
+      bool differs = false;
+      for (const ValueVector& vv : c2.values[0]) {
+        unsigned filler = vv[static_cast<size_t>(t2) - 1].num, value = vv[static_cast<size_t>(t2)].num;
+        if (filler == value) { *why = "filler byte equals the field value"; return false; }
+        if (c2.parts[0].numTrue.count(filler) != c2.parts[0].numTrue.count(value)) differs = true;
+      }
+      if (!differs) { *why = string("filler does not distinguish for shape ") + s.name + " " + d; return false; }
+    }
+  }
+  {  // unnamed with a leading filler: the first field that is not ignored
+    Config c3 = makeConfig("fam=simple;lay=jNS;shape=ge;ref=u");
+    int t3 = -1;
+    if (!c3.valid || refResolvable(c3, c3.parts[0], &t3) != 1 || t3 != 1) { *why = "unnamed behind a leading filler"; return false; }
+    Config c4 = makeConfig("fam=simple;lay=iS;shape=ge;ref=u");
+    if (!c4.valid || refResolvable(c4, c4.parts[0], &t3) != -1) { *why = "unnamed numeric with first real field string must stay open"; return false; }
   }
   return true;
 }
